@@ -88,8 +88,49 @@ func c04Internal(c *ctx) {
 			}
 		}
 	}
+	// sibling levels sharing one prompt: the decision must not depend on Go's map order whenever the
+	// theorem's `Resolves` hypothesis holds (unambiguous prompt, accurate cache, or at the target
+	// with a cache that names no level); each query is run 40 times
+	for sd := 0; sd < c.n(6, 30); sd++ {
+		cs := c04sibling(uint64(9000+sd), 2+sd%2, 1)
+		cs.ops = nil
+		d, err := network.NewDriver("h", options.WithCustomTransport(sim.NewPipe()), options.WithAuthBypass(),
+			options.WithPrivilegeLevels(c04privLevels(cs)), options.WithDefaultDesiredPriv(cs.def))
+		if err != nil {
+			res.Fail("correspondence", cs.line, "NewDriver: "+err.Error(), "internal-newdriver")
+			continue
+		}
+		lv := c04levelsField(cs)
+		for _, a := range cs.levels {
+			for _, b := range cs.levels {
+				for ci, cache := range []string{"", a.name, b.name, "UNKNOWN"} {
+					seen := map[string]bool{}
+					var outs []string
+					for k := 0; k < 40; k++ {
+						d.CurrentPriv = cache
+						a2, n2, err := c04safeProc(d, b.name, a.prompt)
+						runs++
+						if err != nil {
+							a2, n2 = "error", errClass(err)
+						}
+						got := "1 " + a2 + " " + c04hexS(n2) + " " + c04hexS(d.CurrentPriv)
+						if !seen[got] {
+							seen[got] = true
+							outs = append(outs, got)
+						}
+					}
+					lines = append(lines, fmt.Sprintf("c04 proc %s %s %s %s %d", lv, c04hexS(cache), c04hexS(b.name), c04hexS(a.name), ci+sd))
+					qs = append(qs, q{strings.Join(outs, " | "), fmt.Sprintf("%s proc cache=%q at %s target %s (40 runs)", cs.line, cache, a.name, b.name)})
+				}
+			}
+		}
+	}
 	ans := c.ask(lines)
 	for i, a := range ans {
+		if !strings.HasPrefix(a, "1 ") {
+			res.Count("internal:outside-hypotheses") // e.g. ambiguous prompt with an inaccurate cache: order dependent by design
+			continue
+		}
 		if a != qs[i].want {
 			res.Fail("correspondence", "c04internal "+strconv.Itoa(i), fmt.Sprintf("%s: impl %q, model %q (request %s)", qs[i].desc, qs[i].want, a, lines[i]), "internal-impl-vs-model")
 		}
